@@ -175,6 +175,9 @@ public:
             clear();
             alloc_.deallocate(data_, capacity_);
             data_ = nullptr;
+            // back to the default-constructed state: no storage, no capacity
+            max_size_ = 0, capacity_ = 0, mask_ = 0;
+            begin_ = end_ = 0;
         }
     }
 
